@@ -42,11 +42,14 @@ SeqRel(sa, sb, R(_, _)) == Len(sa) = Len(sb) /\ \A j \in 1..Len(sa) : R(sa[j], s
 SameV(a, b) == EqR(a, b, a)
 \* ratios built from 1 - y lose eps / min(y, 1 - y) of relative accuracy: tolerance 1e-9 + 1e-15 / min(y, 1 - y)
 Cond(yy) == FAdd(Lit("1.0"), FDiv(Lit("1e-6"), FMax(FMin(yy, FSub(Lit("1.0"), yy)), Lit("1e-300"))))
-InverseC(a, b, yy) == EqR(FMul(a, b), Lit("1.0"), Cond(yy))
+\* (a permeance clamped to 0 makes a selectivity infinite: products with 0 or inf are not asserted)
+Usable2(a, b) == FIsFinite(a) /\ FIsFinite(b) /\ ~FEqNum(a, Lit("0.0")) /\ ~FEqNum(b, Lit("0.0"))
+InverseC(a, b, yy) == Usable2(a, b) => EqR(FMul(a, b), Lit("1.0"), Cond(yy))
+InverseU(a, b) == Usable2(a, b) => Tw!Inverse(a, b)
 SameC(a, b, yy) == EqR(a, b, FMul(FAbs(a), Cond(yy)))
 MetricsStrict == IF Rel = "swap" THEN /\ Len(E.sf_a) = Len(E.sf_b)
                                       /\ \A j \in 1..Len(E.sf_a) : InverseC(E.sf_a[j], E.sf_b[j], E.y_a[j])
-                                      /\ SeqRel(E.sel_a, E.sel_b, Tw!Inverse)
+                                      /\ SeqRel(E.sel_a, E.sel_b, InverseU)
                  ELSE IF Rel = "dtonly" THEN TRUE
                  ELSE /\ Len(E.sf_a) = Len(E.sf_b)
                       /\ \A j \in 1..Len(E.sf_a) : SameC(E.sf_a[j], E.sf_b[j], E.y_a[j]) /\ SameC(E.psi_a[j], E.psi_b[j], E.y_a[j])
@@ -58,7 +61,7 @@ Ref_TwinOutcome == (E.ev = "TwinEnd") => E.a_outcome = E.b_outcome
 Fn(f) == f.ok                                \* both calls returned
 Pair2(f) == IF Rel = "swap" THEN Tw!Swapped2(f.a, f.b) ELSE Tw!Same2(f.a, f.b)
 Frac(f)  == IF Rel = "swap" THEN Tw!Complement(f.a, f.b) ELSE EqR(f.a, f.b, Lit("1.0"))
-Ratio(f) == IF Rel = "swap" THEN Tw!Inverse(f.a, f.b) ELSE EqR(f.a, f.b, f.a)
+Ratio(f) == IF Rel = "swap" THEN InverseU(f.a, f.b) ELSE EqR(f.a, f.b, f.a)
 RatioC(f, yy) == IF Rel = "swap" THEN InverseC(f.a, f.b, yy) ELSE SameC(f.a, f.b, yy)
 CurveRel(c) ==
   /\ Len(c.a.J) = Len(c.b.J)
@@ -66,7 +69,7 @@ CurveRel(c) ==
        /\ (IF Rel = "swap" THEN Tw!Swapped2(c.a.J[j], c.b.J[j]) /\ Tw!Swapped2(c.a.P[j], c.b.P[j])
            ELSE Tw!Same2(c.a.J[j], c.b.J[j]) /\ Tw!Same2(c.a.P[j], c.b.P[j]))
        /\ (IF Rel = "swap" THEN Tw!Complement(c.a.y[j], c.b.y[j]) ELSE EqR(c.a.y[j], c.b.y[j], Lit("1.0")))
-       /\ (IF Rel = "swap" THEN InverseC(c.a.sf[j], c.b.sf[j], c.a.y[j]) /\ Tw!Inverse(c.a.sel[j], c.b.sel[j])
+       /\ (IF Rel = "swap" THEN InverseC(c.a.sf[j], c.b.sf[j], c.a.y[j]) /\ InverseU(c.a.sel[j], c.b.sel[j])
            ELSE SameC(c.a.sf[j], c.b.sf[j], c.a.y[j]) /\ EqR(c.a.sel[j], c.b.sel[j], c.a.sel[j])
                 /\ SameC(c.a.psi[j], c.b.psi[j], c.a.y[j]))
 FnStrict == /\ (Fn(E.gamma) => Pair2(E.gamma)) /\ (Fn(E.pp) => Pair2(E.pp))
